@@ -3,7 +3,7 @@ import Pose.Model.Stop
 import Pose.Model.StopX
 /-! Driver ops for C20 (stopping controllers).
 
-State code on the wire: `(steps * 65536 + patience_count) * 2 + (1 if continual else 0)`.
+State code on the wire: `(steps * 2^60 + patience_count) * 2 + (1 if continual else 0)`.
 Observation code: `nodec + 2*below + 4*rej`.  `kind` is `sop` (StopOnPlateau) or `rtb` (ReduceToBason). -/
 namespace PP.Driver
 open PP Wire Stop
@@ -11,8 +11,9 @@ open PP Wire Stop
 namespace C20
 
 def obsOfCode (n : Nat) : Obs := ⟨n % 2 == 1, (n / 2) % 2 == 1, (n / 4) % 2 == 1⟩
-def stCode (s : St) : Nat := (s.steps * 65536 + s.pc) * 2 + (if s.cont then 1 else 0)
-def stOfCode (n : Nat) : St := ⟨n / 2 / 65536, (n / 2) % 65536, n % 2 == 1⟩
+def codeBase : Nat := 2 ^ 60
+def stCode (s : St) : Nat := (s.steps * codeBase + s.pc) * 2 + (if s.cont then 1 else 0)
+def stOfCode (n : Nat) : St := ⟨n / 2 / codeBase, (n / 2) % codeBase, n % 2 == 1⟩
 def bit (b : Bool) : Nat := if b then 1 else 0
 
 def stepOf (kind : String) (c : Cfg) : Except String (St → Obs → St) :=
